@@ -1,4 +1,4 @@
-SPECIFICATION TSpec
+SPECIFICATION Spec
 CONSTANTS
   Actions <- C_Actions
   Validity <- C_Validity
@@ -15,8 +15,7 @@ CONSTANTS
   AttemptMaxBlocks <- C_AttemptMaxBlocks
   BlockSeconds = 12
   Interlude <- C_Interlude
-  MaxMessages = 1000
+  MaxMessages = 3
   LoopBoundToCaller = TRUE
-  Starts = {0}
-CONSTRAINT Hwm
-POSTCONDITION Accepted
+  Starts <- BatchStarts
+INVARIANTS TypeOK NoUnderflow SigningStartsAfterStart SigningEndsBeforeMargin LoopFits NoAnnouncementAfterDeadline SignReturnsByDeadline AttemptWindow PostEndsBeforeExpiry
